@@ -8,6 +8,6 @@ From Kardia Require Import Base.Anchor.
 Extraction "../ocaml/C13/model.ml" Anchor.anchor
   Model.split_point Model.root Model.proofs_from Model.verify Model.compute_from_aunts
   Model.from_data Model.from_header Model.add_part Model.is_complete Model.read_all Model.bit_array
-  Model.add_all Model.bytes_to_hash
+  Model.add_all Model.bytes_to_hash Model.part_from_proto_real
   Model.encode_header Model.encode_commit_sig Model.header_hash Model.commit_hash Model.evidence_hash
   Model.commit_validate Model.validate_basic.
